@@ -172,7 +172,11 @@ def xlsx_sheet_xml(rng, sh, sst, choice):
     return "".join(out)
 
 
+WB_COUNTER = [0]          # xlsx workbooks with tables written so far (every fifth gets an unreadable table part)
+
 def xlsx_bytes(rng, wb):
+    if any(sh["tables"] for sh in wb["sheets"]):
+        WB_COUNTER[0] += 1
     choice = {"dimension": rng.choice(["exact", "none", "small", "large", "a1", "exact"]),
               "implicit": rng.random() < 0.3, "inline": rng.random() < 0.3}
     choice["shuffle_rows"] = rng.random() < 0.2
@@ -195,7 +199,10 @@ def xlsx_bytes(rng, wb):
             for j, (tn, r0, c0, r1, c1, hdr, tot) in enumerate(sh["tables"]):
                 tcount += 1
                 srel.append('<Relationship Id="rId%d" Type="%s/table" Target="../tables/table%d.xml"/>' % (j + 1, NS_R, tcount))
-                t = [DECL, '<table xmlns="%s" id="%d" name="%s" displayName="%s" ref="%s:%s"' % (NS_MAIN, tcount, tn, tn, a1(r0, c0), a1(r1, c1))]
+                # rarely a table part whose reference cannot be read: load_tables fails on this
+                # workbook — every time it is called, not only the first time
+                tref = "%s:" % a1(r0, c0) if WB_COUNTER[0] % 5 == 2 else "%s:%s" % (a1(r0, c0), a1(r1, c1))
+                t = [DECL, '<table xmlns="%s" id="%d" name="%s" displayName="%s" ref="%s"' % (NS_MAIN, tcount, tn, tn, tref)]
                 if hdr != 1:
                     t.append(' headerRowCount="%d"' % hdr)
                 if tot:
